@@ -72,21 +72,25 @@ TIE_FUNCS = {
     "LSProofs.Gen.InsertStr": ["Repr.insert_str", "Repr.reserve", "Repr.set_len", "Repr.replace_inner"],
     "LSProofs.Gen.PopRemove": ["Repr.pop", "Repr.remove", "Repr.ensure_modifiable", "Repr.set_len", "Repr.truncate_unchecked",
                                "Repr.replace_inner", "Repr.from_str"],
+    "LSProofs.Gen.Wrappers": ["LeanString.try_reserve", "LeanString.try_shrink_to_fit", "LeanString.try_shrink_to", "LeanString.try_push",
+                              "LeanString.try_pop", "LeanString.try_push_str", "LeanString.try_remove", "LeanString.try_insert",
+                              "LeanString.try_insert_str", "LeanString.try_truncate", "LeanString.capacity", "LeanString.len",
+                              "LeanString.is_heap_allocated"],
     "LSProofs.Gen.Good": ["Repr.push_str", "Repr.insert_str", "Repr.pop", "Repr.remove", "Repr.reserve", "Repr.ensure_modifiable",
                           "Repr.shrink_to", "Repr.set_len", "Repr.truncate_unchecked", "Repr.replace_inner", "Repr.from_str",
                           "Repr.make_shallow_clone"],
 }
 TIES = {
-    "C01": T("Ctor", "Readers", "Release", "SetLen", "Reserve", "Ensure", "Shrink", "Clone", "Clear", "PushStr", "InsertStr", "PopRemove", "Good"),
+    "C01": T("Ctor", "Readers", "Release", "SetLen", "Reserve", "Ensure", "Shrink", "Clone", "Clear", "PushStr", "InsertStr", "PopRemove", "Good", "Wrappers"),
     "C02": T("Reserve", "Ensure", "Shrink", "Clear", "SetLen"),
     "C03": T("Release", "Clone", "Reserve", "Ensure", "Shrink"),
-    "C05": T("Reserve", "Ensure", "Shrink", "SetLen", "Ctor", "PushStr", "InsertStr", "PopRemove"),
+    "C05": T("Reserve", "Ensure", "Shrink", "SetLen", "Ctor", "PushStr", "InsertStr", "PopRemove", "Wrappers"),
     "C06": T("Reserve", "Shrink", "Ctor"),
     "C07": T("SetLen", "InsertStr", "PopRemove"),
     "C08": T("Clone"),
-    "C09": T("Ctor", "Reserve", "PushStr", "InsertStr", "PopRemove"),
+    "C09": T("Ctor", "Reserve", "PushStr", "InsertStr", "PopRemove", "Wrappers"),
     "C10": T("Ctor", "Reserve", "Ensure", "Clear", "SetLen"),
-    "C11": T("Readers", "Ctor", "Reserve", "PushStr", "InsertStr"),
+    "C11": T("Readers", "Ctor", "Reserve", "PushStr", "InsertStr", "Wrappers"),
     "C12": T("Reserve"),
     "C13": T("Shrink"),
     "C20": T("Kind"),
